@@ -36,7 +36,12 @@ MANIFEST = dict(
              "the generated text, so it either still satisfies the equalities or a proof obligation fails (code outside the "
              "translated subset is reported as a broken tie). (2) Correspondence: the hand-written model and the translated "
              "definitions are compared with the real functions on generated and random lines (str and bytes), and the statement "
-             "itself is executed on the implementation (random + exhaustive small scope).",
+             "itself is executed on the implementation (random + exhaustive small scope)."
+             " The reader side of the same round trip is proved in Props/C14.lean over a model of "
+             "csv.reader (CPython _csv.c state machine, strict): C14_agrees_with_csv_reader / C14_agrees_with_csv_reader_writer (on these "
+             "lines csv.reader returns the row too; the library generator's blank line for the row [''] excepted) and "
+             "C14_reader_vs_parse (on arbitrary physical lines the two parsers differ only on an unterminated quoted field, on a "
+             "blank line and in the exception class).",
         note="csv.writer's quoting decision is modelled (validated by a stream); bytes are modelled as characters 0..255. "
              "The translator (its reading of the Python subset: pure expressions, str/bytes as character lists, static "
              "isinstance resolution per specialisation, identity process_field) is trusted and exercised by the csvpy.* streams; "
